@@ -226,6 +226,29 @@ func hostileTargets(depth int, rng *rand.Rand, rev int) []hTarget {
 						fields: wf, tnames: tnames, run: typedRun})
 				}
 			}
+			// the non-generic LowCardinality target (dictionary and keys as columns)
+			if rawIdx := map[string]func() proto.Column{
+				"LowCardinality(String)": func() proto.Column { return new(proto.ColStr) },
+				"LowCardinality(UInt32)": func() proto.Column { return new(proto.ColUInt32) },
+				"LowCardinality(UUID)":   func() proto.Column { return new(proto.ColUUID) },
+			}[k.Name()]; rawIdx != nil && rows > 0 {
+				ts = append(ts, hTarget{id: "rawlc:" + k.Name(), kind: "rawlc", rev: rev, base: base, asts: asts, names: []string{"c"}, rows: rows, fields: fields, tnames: tnames,
+					run: func(data []byte) hOutcome {
+						t := &proto.ColLowCardinalityRaw{Index: rawIdx()}
+						var blk proto.Block
+						r := proto.NewReader(bytes.NewReader(data))
+						if err := blk.DecodeBlock(r, rev, proto.Results{{Name: "c", Data: t}}); err != nil {
+							return hOutcome{err: err.Error()}
+						}
+						out := hOutcome{rows: blk.Rows}
+						if t.Rows() != blk.Rows {
+							out.inconsistent = fmt.Sprintf("the block has %d rows, the column reports %d", blk.Rows, t.Rows())
+						} else if blk.Rows > 0 && t.Keys().Rows() != blk.Rows {
+							out.inconsistent = fmt.Sprintf("the block has %d rows, the keys column has %d", blk.Rows, t.Keys().Rows())
+						}
+						return out
+					}})
+			}
 			if ki%3 == 0 {
 				ts = append(ts, hTarget{id: "auto:" + k.Name(), kind: "auto", rev: rev, base: base, asts: asts, names: []string{"c"}, rows: rows, fields: fields, tnames: tnames,
 					run: func(data []byte) hOutcome {
